@@ -134,11 +134,11 @@ LawMasterFirst(before, a, out, after) ==
 \* "update ... leave[s] the local branch equal to the master"
 LawUpdate(before, a, out, after) ==
     (a.op = "update" /\ before.bound[a.c]) => (out = "ok" /\ after.tip[a.c] = after.tip["M"] /\ after.tip["M"] = before.tip["M"])
-\* "pull in a checkout leave[s] the local branch equal to the master": a successful pull from the master, or from any
-\* branch by a checkout that was level with its master
+\* "pull in a checkout leave[s] the local branch equal to the master": a successful pull by a checkout that holds no
+\* work of its own (it is level with or behind its master), from the master - or from any branch when it was level
 LawPull(before, a, out, after) ==
-    (a.op = "pull" /\ before.bound[a.c] /\ out = "ok" /\ (a.src = "M" \/ before.tip[a.c] = before.tip["M"])) =>
-        after.tip[a.c] = after.tip["M"]
+    (a.op = "pull" /\ before.bound[a.c] /\ out = "ok" /\ Ahead(before, a.c) = {}
+     /\ (a.src = "M" \/ before.tip[a.c] = before.tip["M"])) => after.tip[a.c] = after.tip["M"]
 \* "a local-only commit changes only the local branch"
 LawLocalOnly(before, a, out, after) ==
     (a.op \in {"commitLocal", "commitUnbound"} /\ out = "ok") =>
